@@ -7,6 +7,7 @@ from batches import core
 TRUSTED = list(core.TRUSTED) + [
     'axiom_uso_key', 'axiom_uso_ord',
     'std::collections::HashMap::<K1, V, S, A>::get_mut', 'SliceOf::<T>::sort_unstable',
+    'has_attr',
 ]
 
 CONVERT = r'^pub\(crate\) mod convert \{'
@@ -193,8 +194,135 @@ broadcast use {vstd::std_specs::hash::group_hash_axioms, crate::fspec::ax::axiom
     return sk
 
 
+# ------------------------------------------------------------------------------------------------ part 2: tag table
+# Expected classification of DWARF tags, written from the C19 statement ("member-like children (parameters, members,
+# local variables, blocks and the like)") and DWARF 5 chapters 3-5 -- NOT from the code's match.
+#   MEMBER_LIKE: the entry describes a part/attribute of its parent and has no meaning without it; it is never the target
+#                of a reference that would keep it alive on its own  => must have a back edge (completeness).
+MEMBER_LIKE = [
+    'formal_parameter', 'unspecified_parameters',                      # 3.3.4 / 5.10 parameters of a subprogram / subroutine type
+    'member', 'inheritance', 'access_declaration', 'friend',           # 5.7 structure/class contents
+    'variant_part', 'variant',                                         # 5.7.10
+    'enumerator',                                                      # 5.9
+    'subrange_type', 'generic_subrange',                               # 5.5 / 5.13 array dimensions
+    'variable', 'constant',                                            # 4.1 local variables / constants of a scope
+    'lexical_block', 'inlined_subroutine', 'label', 'with_stmt', 'try_block', 'catch_block',   # 3.5-3.8, 3.3.8
+    'call_site', 'call_site_parameter', 'GNU_call_site', 'GNU_call_site_parameter',            # 3.4
+    'template_type_parameter', 'template_value_parameter',             # 2.23
+    'GNU_template_template_param', 'GNU_template_parameter_pack', 'GNU_formal_parameter_pack',
+    'thrown_type', 'common_inclusion',                                 # 3.3.7, 3.3.9 children of a subprogram
+    'namelist_item', 'condition',                                      # 4.3, 5.11
+]
+#   STANDALONE: types (5.x), dwarf procedures (reference targets), and structural scopes / imports (3.2): kept only when
+#               referenced or required  => no back edge (otherwise the filter prunes nothing below a retained scope).
+STANDALONE = [
+    'array_type', 'atomic_type', 'base_type', 'class_type', 'coarray_type', 'const_type', 'dynamic_type', 'enumeration_type',
+    'file_type', 'immutable_type', 'interface_type', 'packed_type', 'pointer_type', 'ptr_to_member_type', 'reference_type',
+    'restrict_type', 'rvalue_reference_type', 'set_type', 'shared_type', 'string_type', 'structure_type', 'subroutine_type',
+    'template_alias', 'typedef', 'union_type', 'unspecified_type', 'volatile_type',
+    'dwarf_procedure',
+    'namespace', 'module', 'imported_declaration', 'imported_module', 'imported_unit',
+    'namelist', 'common_block', 'entry_point',       # judgement calls (named entities with their own location/address); see report
+]
+
+
+def tag_specs(ctx):
+    consts = dw_consts(ctx, 'DwTag')
+    known = set(re.findall(r'pub const DW_TAG_(\w+):', consts))
+    for t in MEMBER_LIKE + STANDALONE + ['subprogram']:
+        if t not in known:
+            raise Lost(f'constants.rs: DW_TAG_{t} not found')
+    assert not (set(MEMBER_LIKE) & set(STANDALONE))
+
+    def disj(lst):
+        return '\n        || '.join(f't == crate::constants::DW_TAG_{t}' for t in lst)
+    return f"""
+/// C19 tag table (vx/batches/filter.py MEMBER_LIKE): children that are extensions of their parent
+pub open spec fn member_like_tag(t: crate::constants::DwTag) -> bool {{
+        {disj(MEMBER_LIKE)}
+}}
+/// C19 tag table (vx/batches/filter.py STANDALONE): types, reference targets, structural scopes and imports
+pub open spec fn standalone_tag(t: crate::constants::DwTag) -> bool {{
+        {disj(STANDALONE)}
+}}
+"""
+
+
+def populate_read_types(ctx, sk):
+    """read-side data types the filter code mentions (definitions only, real text)"""
+    op = Source('read/op.rs', ctx)
+    ru = Source('read/unit.rs', ctx)
+    sk.mods['read']['uses'] += '\npub use self::op::*;\npub use self::unit::*;'
+    sk.module('read::op', """use crate::common::{DebugAddrIndex, DebugInfoOffset, Encoding, Register, Format};
+use crate::constants;
+use crate::read::{Error, Reader, ReaderOffset, Result, UnitOffset};
+use crate::vspec::*;""")
+    sk.add('read::op', op.item(r'^pub enum DieReference<').clean())
+    sk.add('read::op', op.item(r'^pub enum Operation<R, Offset').clean(rejrec=['R', 'Offset']))
+    sk.add('read::op', op.item(r'^pub struct Expression<R: Reader>').clean(offset=False, rejrec=['R']))
+    sk.module('read::unit', """use crate::common::*;
+use crate::constants;
+use crate::read::{Error, Reader, ReaderOffset, Result, UnitOffset, Expression};
+use crate::vspec::*;""")
+    sk.add('read::unit', ru.item(r'^pub enum AttributeValue<R, Offset', label='AttributeValue').clean(rejrec=['R', 'Offset']))
+    sk.add('read::unit', ru.item(r'^pub struct Attribute<R: Reader>', label='Attribute(struct)').clean(offset=False, rejrec=['R']))
+    at = ru.item(r'^impl<R: Reader> Attribute<R> \{', label='Attribute')
+    at.keep_only(['name'])
+    at.clean(offset=False).own(['C19'])
+    at.insert_members('    pub closed spec fn spec_name(&self) -> constants::DwAt { self.name }')
+    at.splice('name', ret='res', ensures=['res == self.spec_name()'])
+    sk.add('read::unit', at)
+    sk.add('read::unit', ru.item(r'^pub struct DebuggingInformationEntry<R, Offset', label='DebuggingInformationEntry(struct)').clean(rejrec=['R', 'Offset']))
+    die = ru.item(r'^impl<R, Offset> DebuggingInformationEntry<R, Offset>', label='DebuggingInformationEntry')
+    die.keep_only(['has_attr'])
+    # `.iter().any(closure)`: iterator adapter, outside Verus -> contract assumed (TRUSTED `has_attr`)
+    die.extbody(['has_attr'])
+    die.clean()
+    die.insert_members("""    pub open spec fn has_attr_spec(&self, name: constants::DwAt) -> bool {
+        exists|i: int| 0 <= i < self.attrs@.len() && (#[trigger] self.attrs@[i]).spec_name() == name
+    }""")
+    die.splice('has_attr', ret='res', ensures=['res == self.has_attr_spec(name)'])
+    sk.add('read::unit', die)
+
+
+def populate_backedge(ctx, sk):
+    """part 2: FilterUnitEntry::has_die_back_edge against the tag table"""
+    wu = Source('write/unit.rs', ctx)
+    M = 'write::unit::convert'
+    sk.mods[M]['uses'] += """
+use core::ops::Deref;
+use crate::constants;
+use crate::read::{self, Reader, ReaderOffset};"""
+    sk.add('fspec', tag_specs(ctx), label='tag_table')
+    st = wu.item(r"^    pub struct FilterUnitEntry<'a, R: Reader<Offset = usize>>", within=CONVERT, label='FilterUnitEntry(struct)')
+    # R-FIELDS: `read::UnitRef` is a (&Dwarf, &Unit) pair -- all of gimli's section types -- and is not touched by has_die_back_edge
+    st.custom('R-FIELDS', "pub read_unit: read::UnitRef<'a, R>,", "pub read_unit: core::marker::PhantomData<&'a R>,")
+    st.clean()
+    st.prepend('#[verifier::reject_recursive_types(R)]')     # R-REJREC (lib's rejrec only handles unindented items)
+    ctx.count('R-REJREC')
+    sk.add(M, st)
+    dr = wu.item(r"^    impl<'a, R: Reader<Offset = usize>> Deref for FilterUnitEntry<'a, R>", within=CONVERT, label='Deref for FilterUnitEntry').clean()
+    dr.own(['C19'])
+    dr.splice('deref', ret='res', ensures=['*res == self.read_entry'])
+    sk.add(M, dr)
+    imp = wu.item(r"^    impl<'a, R: Reader<Offset = usize>> FilterUnitEntry<'a, R> \{", within=CONVERT, label='FilterUnitEntry')
+    imp.drop(['null'])
+    imp.clean()
+    imp.own(['C19'])
+    T = 'self.read_entry.tag'
+    imp.splice('has_die_back_edge', ret='res', ensures=[
+        f'[C19:backedge-member-like] member_like_tag({T}) ==> res',
+        f'[C19:backedge-subprogram] {T} == constants::DW_TAG_subprogram ==> res == self.read_entry.has_attr_spec(constants::DW_AT_declaration)',
+        f'[C19:backedge-standalone] standalone_tag({T}) ==> !res',
+        f'[C19:backedge-unknown-conservative] !standalone_tag({T}) && {T} != constants::DW_TAG_subprogram ==> res',
+    ])
+    sk.add(M, imp)
+
+
 def populate(ctx, sk):
     populate_deps(ctx, sk)
+    populate_read_types(ctx, sk)
+    populate_backedge(ctx, sk)
     return sk
 
 
